@@ -67,18 +67,22 @@ CHECKS = {
 }
 # sentences appended to the level text: layers added in the second round (see DESIGN.md sections 0.2b and 8)
 ADDENDA = {
- "C02": "Stability histories include neuronjson schema documents and, every second history, a workload restricted to two or three data types.",
- "C03": "Every second history is a short-burst, few-type history with two to four restarts; one directed history moves the master head off its line of versions (newversion on a merge node).",
- "C04": "Query lists of the snapshots are frozen by a first census pass; a sample of crash points is followed by a second crash at every write of the recovery start-up, each started from a copy of the crashed directory; the two zero-length-memtable states Badger's own file handling can leave are planted and must be recovered from.",
+ "C02": "Stability histories include neuronjson schema documents and, every second history, a workload restricted to two or three data types; the gate differential also sends every catalogued mutation with a lower-case (thorough: title-case) HTTP method; a directed history runs POST resolve over several data instances and conflict patterns and audits that no write lands in a committed parent.",
+ "C03": "Every second history is a short-burst, few-type history with two to four restarts; two directed histories move the master head off its line of versions (newversion on a merge node; merge with the head line as first or as second parent); neuronjson body ids have 1-5 digits, key lists are compared in served order and range reads are part of the snapshot; admin steps create and delete side repos.",
+ "C04": "One workload consists of admin steps (instance create / rename / delete, side-repo create / delete). Query lists of the snapshots are frozen by a first census pass; a sample of crash points is followed by a second crash at every write of the recovery start-up, each started from a copy of the crashed directory; the two zero-length-memtable states Badger's own file handling can leave are planted and must be recovered from.",
  "C05": "A bulk phase deletes ranges of exactly M of N keys for (N, M) around multiples of the store's 1000-key delete batch.",
- "C06": "One scenario re-creates an instance name while the old instance's asynchronous wipe is held open by the wrapping engine.",
+ "C06": "Two scenarios hand a name over (re-creation, rename of another instance) while the old instance's asynchronous wipe is held open by the wrapping engine.",
  "C07": "Caller-assigned uuids include over-long hexadecimal strings and an existing uuid extended by hex digits (prefix ambiguity).",
- "C08": "Every second sequence restarts the server before the final sweep and sweeps leaves first; some intermediate versions are committed without ever being read or written.",
+ "C08": "Every second sequence restarts the server before the final sweep and sweeps leaves first; some intermediate versions are committed without ever being read or written; every fourth sequence is a scripted remap chain (the same supervoxels re-mapped in three successive versions) ending in a restart.",
  "C10": "World-split cases cut one sparse volume over several blocks at negative block coordinates with dvid.RLEs.Partition and compare the per-block splits with the voxel-wise split of the world.",
- "C11": "Version races run on master parents and on committed named-branch parents (newversion vs branch <own name>).",
- "C15": "A stored layer inspects what keyvalue instances of every Compression x Checksum setting physically store per write route (envelope checksum kind, round trip, altered stored bytes read back over HTTP).",
+ "C11": "Version races run on master parents, on committed named-branch parents (newversion vs branch <own name>) and with one new branch name on different parents; every second register history runs at a child version whose parent holds the keys; concurrent re-posts of one annotation element with different tag sets must leave every tag view agreeing with the stored tags.",
+ "C15": "A sequence phase serialises values of nearly equal sizes back to back (state carried between calls). A stored layer inspects what keyvalue instances of every Compression x Checksum setting physically store per write route (envelope checksum kind, round trip, altered stored bytes read back over HTTP).",
  "C19": "Full copies are also requested at versions that deleted keys written again later; every fourth history copies without repeating the source's settings; every second history restarts the server after the copies and compares every copy again.",
- "C20": "The model-based mixed workload (well-formed by construction) runs under the same panic / liveness monitors; scenario probes replay well-formed request sequences that once hung or panicked; a request that outlives the watchdog is a violation only when the goroutine dump shows it parked for minutes with no goroutine left that could wake it (quiescence oracle), otherwise inconclusive.",
+ "C01": "Every modelled key is also read through the range path (keyrange over [key,key] and [0,key]) and compared with the model.",
+ "C09": "Blocks with one axis at the largest legal extent (1024 voxels) and just below it go through the same round trips.",
+ "C12": "A continuous-pressure phase (one reserving client against four POST maxlabel clients looping without barriers, in-process) checks that reserved label ranges never overlap or go backwards.",
+ "C17": "One write in five carries all-background blocks over existing data.",
+ "C20": "The model-based mixed workload (well-formed by construction) runs under the same panic / liveness monitors; scenario probes replay well-formed request sequences that once hung or panicked; hostile generation includes systematic variants (each of the first eight 32-bit header fields at 2^32-1, JSON numbers swapped / shifted, containers emptied, values retyped, block keys changed, documented neuronjson metadata fields with wrong types, paths cut after each segment), every valid control twice, and the maintenance requests (reload) after the batches; a request that outlives the watchdog is a violation only when the goroutine dump shows it parked for minutes with no goroutine left that could wake it (quiescence oracle), otherwise inconclusive.",
 }
 NOT_BUILT = "check not built yet in this round (machinery in progress); see DESIGN.md section 3"
 ALL = ["C%02d" % i for i in range(1, 21)]
